@@ -1,3 +1,179 @@
+import Cello.Cmp
+import CelloGen.Cmp
 import Driver.Common
-/- driver for engine `cmp` — stub, replaced when the engine is built -/
-def main (_args : List String) : IO Unit := IO.println "O not-implemented"
+/- driver for engine `cmp` (C09).  Op file (values are prefix terms, one token each, see harness/h_cmp.c):
+     cmp  <A> <B>          sign of cmp(A,B) and cmp(B,A) and the six predicates, as GENERATED from src/Cmp.c
+     tri  <A> <B> <C>      the six signs among three values
+     keys <v1> … <vn>      scalars of one kind set into a Tree and a Table with value = index; iteration order, lookups
+     sort <v1> … <vn>      scalars of one kind pushed into an Array and sorted
+   `O` lines are what the C harness must print too; `R` lines are the reference order (integers / keys / bytes), compared
+   with the `O` line by vlib/props/c09.py when a proof obligation is broken. -/
+open Cello.Cmp
+
+def typeNames : List String :=
+  ["Int", "Float", "String", "Array", "List", "Tuple", "Tree", "Table", "Type", "Ref", "Box", "Range", "Slice", "Zip",
+   "Filter", "Map", "File", "Mutex", "Thread", "Process", "Function", "Cmp", "Hash", "Iter", "Len", "Push", "Get", "Mark",
+   "New", "Copy", "Assign", "Show", "Size", "Sort", "Start", "Swap", "C_Int", "C_Str", "C_Float", "Call", "Cast",
+   "Concat", "Current", "Doc", "Format", "Help", "Lock", "Pointer", "Resize", "Alloc", "TypeError",
+   "ValueError", "KeyError", "IOError", "ClassError", "IndexOutOfBoundsError", "OutOfMemoryError", "FormatError",
+   "BusyError", "ResourceError", "GC", "Exception"]
+
+def hexVal (c : Char) : Option Nat :=
+  if '0' ≤ c ∧ c ≤ '9' then some (c.toNat - '0'.toNat)
+  else if 'a' ≤ c ∧ c ≤ 'f' then some (c.toNat - 'a'.toNat + 10)
+  else none
+
+def parseHexBytes : List Char → Option (List UInt8)
+  | [] => some []
+  | a :: b :: rest => do
+    let x ← hexVal a; let y ← hexVal b; let tl ← parseHexBytes rest
+    pure (UInt8.ofNat (16 * x + y) :: tl)
+  | _ => none
+
+def parseHex64 (cs : List Char) : Option UInt64 :=
+  if cs.length ≠ 16 then none else
+  cs.foldlM (fun (acc : UInt64) c => (hexVal c).map (fun d => acc * 16 + UInt64.ofNat d)) 0
+
+def parseDec64 (s : String) : Option (BitVec 64) :=
+  -- optional '-' then 1..19 digits, value within int64_t
+  let body := if s.startsWith "-" then (s.drop 1).toString else s
+  if body.isEmpty || body.length > 19 || !(body.toList.all Char.isDigit) then none else
+  match s.toInt? with
+  | some v => if -(2^63 : Int) ≤ v ∧ v < 2^63 then some (BitVec.ofInt 64 v) else none
+  | none => none
+
+def ops : CelloGen.Cmp.FloatOps UInt64 := hwFloatOps
+
+def maxCount : Nat := 4096
+
+mutual
+partial def parseVal (toks : List String) : Option (Val × List String) :=
+  match toks with
+  | [] => none
+  | t :: rest =>
+    let cs := t.toList
+    match cs with
+    | 'i' :: _ => (parseDec64 (t.drop 1).toString).map (fun v => (.int v, rest))
+    | 'f' :: h => (parseHex64 h).map (fun b => (.flt b, rest))
+    | 's' :: h => match parseHexBytes h with
+      | some bs => if bs.contains 0 then none else some (.str bs, rest)
+      | none => none
+    | 't' :: n => let name := String.ofList n
+      if typeNames.contains name then some (.typ name.toUTF8.toList, rest) else none
+    | 'p' :: d :: ':' :: h => match parseHexBytes h with
+      | some bs => if '0' ≤ d ∧ d ≤ '9' then some (.plain (d.toNat - '0'.toNat) bs, rest) else none
+      | none => none
+    | 'A' :: n => parseSeq .array (String.ofList n) rest
+    | 'L' :: n => parseSeq .list (String.ofList n) rest
+    | 'T' :: n => parseSeq .tuple (String.ofList n) rest
+    | 'R' :: n => match (String.ofList n).toNat? with
+      | some k => if k > maxCount || n.isEmpty then none else
+        match parseMany (2 * k) rest [] with
+        | some (vs, rest') =>
+          let rec pairUp : List Val → List (Val × Val)
+            | a :: b :: tl => (a, b) :: pairUp tl
+            | _ => []
+          some (.tree (treeOf (valCmp ops) (pairUp vs)), rest')
+        | none => none
+      | none => none
+    | _ => none
+partial def parseSeq (k : SeqKind) (n : String) (rest : List String) : Option (Val × List String) :=
+  match n.toNat? with
+  | some cnt => if cnt > maxCount || n.isEmpty then none else
+    (parseMany cnt rest []).map (fun (vs, rest') => (.seq k vs, rest'))
+  | none => none
+partial def parseMany (n : Nat) (toks : List String) (acc : List Val) : Option (List Val × List String) :=
+  if n = 0 then some (acc.reverse, toks) else
+  match parseVal toks with
+  | some (v, rest) => parseMany (n - 1) rest (v :: acc)
+  | none => none
+end
+
+/-- all remaining tokens as values -/
+partial def parseAll (toks : List String) (acc : List Val) : Option (List Val) :=
+  match toks with
+  | [] => some acc.reverse
+  | _ => match parseVal toks with
+    | some (v, rest) => parseAll rest (v :: acc)
+    | none => none
+
+def b2s (b : Bool) : String := if b then "1" else "0"
+
+def hexDigit (n : Nat) : Char := if n < 10 then Char.ofNat (48 + n) else Char.ofNat (87 + n)
+def hexOfBytes (bs : List UInt8) : String :=
+  String.ofList (bs.flatMap fun b => [hexDigit (b.toNat / 16), hexDigit (b.toNat % 16)])
+
+def showScalar : Val → String
+  | .int v => toString v.toInt
+  | .flt b => toString (fkey b)
+  | .str bs => "s" ++ hexOfBytes bs
+  | _ => "?"
+
+def joinC (xs : List String) : String := ",".intercalate xs
+
+/- the reference order the theorems tie `valCmp` to (integers, float keys, byte strings, lexicographic lift) -/
+mutual
+partial def refCmp : Val → Val → Int
+  | .int a, .int b => if a.toInt < b.toInt then -1 else if a.toInt > b.toInt then 1 else 0
+  | .flt a, .flt b => if fkey a < fkey b then -1 else if fkey a > fkey b then 1 else 0
+  | .str a, .str b => if a < b then -1 else if b < a then 1 else 0
+  | .typ a, .typ b => if a < b then -1 else if b < a then 1 else 0
+  | .plain _ a, .plain _ b => if a < b then -1 else if b < a then 1 else 0
+  | .seq _ xs, .seq _ ys => refLex xs ys
+  | .tree xs, .tree ys => refLex (xs.flatMap fun kv => [kv.1, kv.2]) (ys.flatMap fun kv => [kv.1, kv.2])
+  | _, _ => 0
+partial def refLex : List Val → List Val → Int
+  | [], [] => 0
+  | [], _ => -1
+  | _, [] => 1
+  | x :: xs, y :: ys => let r := refCmp x y; if r ≠ 0 then r else refLex xs ys
+end
+
+def doCmp (a b : Val) : IO Unit := do
+  match cmpTop ops a b, cmpTop ops b a with
+  | .ok c, .ok rc =>
+    -- the predicates are the generated definitions applied to the model's cmp (sign-preserving: they only test against 0)
+    let cf : Val → Val → Int := fun x y => match cmpTop ops x y with | .ok c => c | .exc _ => 0
+    IO.println s!"O cmp s={sgn c} rs={sgn rc} eq={b2s (CelloGen.Cmp.eq cf a b)} neq={b2s (CelloGen.Cmp.neq cf a b)} gt={b2s (CelloGen.Cmp.gt cf a b)} lt={b2s (CelloGen.Cmp.lt cf a b)} ge={b2s (CelloGen.Cmp.ge cf a b)} le={b2s (CelloGen.Cmp.le cf a b)}"
+    IO.println s!"R cmp s={refCmp a b} rs={refCmp b a}"
+  | r1, r2 =>
+    let sh : Res → String := fun r => match r with | .ok c => toString (sgn c) | .exc n => n
+    IO.println s!"O cmp exc={sh r1} rexc={sh r2}"
+
+def sameScalarKind (vs : List Val) : Bool :=
+  vs.all (fun v => v.valid && v.ctype ≤ 2) && allSame (vs.map Val.ctype)
+
+def main (args : List String) : IO Unit := do
+  let lines ← Driver.inputLines args
+  for l in lines do
+    if Driver.isSkippable l then continue
+    match Driver.words l with
+    | "cmp" :: rest =>
+      match parseAll rest [] with
+      | some [a, b] => if runnable a b then doCmp a b else IO.println "O bad-op"
+      | _ => IO.println "O bad-op"
+    | "tri" :: rest =>
+      match parseAll rest [] with
+      | some [a, b, c] =>
+        if a.valid && b.valid && c.valid && comparable a b && comparable b c && comparable a c then
+          let s := fun x y => sgn (valCmp ops x y)
+          IO.println s!"O tri ab={s a b} ba={s b a} bc={s b c} cb={s c b} ac={s a c} ca={s c a}"
+          IO.println s!"R tri ab={refCmp a b} ba={refCmp b a} bc={refCmp b c} cb={refCmp c b} ac={refCmp a c} ca={refCmp c a}"
+        else IO.println "O bad-op"
+      | _ => IO.println "O bad-op"
+    | "keys" :: rest =>
+      match parseAll rest [] with
+      | some vs =>
+        if vs.isEmpty || !sameScalarKind vs then IO.println "O bad-op" else
+        let c := valCmp ops
+        let t := treeOf c vs.zipIdx
+        let gets := vs.map fun k => match lastEqual c vs k with | some i => toString i | none => "-"
+        IO.println s!"O keys n={vs.length} tree={t.length} table={t.length} order={joinC (t.map fun kv => toString kv.2)} tget={joinC gets} hget={joinC gets}"
+      | none => IO.println "O bad-op"
+    | "sort" :: rest =>
+      match parseAll rest [] with
+      | some vs =>
+        if vs.isEmpty || !sameScalarKind vs then IO.println "O bad-op" else
+        IO.println s!"O sort {joinC ((sortBy (valCmp ops) vs).map showScalar)}"
+      | none => IO.println "O bad-op"
+    | _ => IO.println "O bad-op"
